@@ -121,6 +121,13 @@ def gen_case(rng, tier, idx):
         sigma = float(gen.pick(rng, [0.1, 1.0, 1.0, 10.0, 50.0]))
         y = Q @ x + (0 if noise_free else rng.normal(0, sigma, size=Q.shape[0]))
         meas.append(dict(Q=Q, kind=kind, y=y, sigma=sigma, proj=t, member=member))
+    count_query = bool(rng.rand() < 0.15)
+    if count_query:
+        # the record count asked directly: a measurement on the empty projection
+        c_ = float(gen.pick(rng, [1.0, 1.0, 2.0]))
+        sg_ = float(gen.pick(rng, [0.1, 1.0, 10.0]))
+        meas.append(dict(Q=np.array([[c_]]), kind='count_on_empty_projection', y=np.array([c_ * X.sum()]) + (0 if noise_free else rng.normal(0, sg_, size=1)),
+                         sigma=sg_, proj=(), member=True))
     supplied = None if rng.rand() < 0.75 else gen.pick(rng, [1, 7, 3.5, float(N), 1e6])
     prior_call = None
     if rng.rand() < 0.3:
@@ -129,7 +136,8 @@ def gen_case(rng, tier, idx):
                           total=gen.pick(rng, [None, 5000.0, 3.0]), warm_start=bool(rng.rand() < 0.6))
     return dict(attrs=attrs, shape=shape, N=N, noise_free=noise_free, meas=meas, supplied=supplied, prior_call=prior_call,
                 spellings=[gen.pick(rng, ['dense', 'dense', 'csr', 'linop']) for _ in meas],
-                targets=[t for t in ['factored', 'local', 'public', 'mixture', 'public_fn'] if rng.rand() < (0.35 if t in ('public', 'local') else 0.9)] or ['factored'],
+                targets=[t for t in ['factored', 'local', 'public', 'mixture', 'public_fn'] if rng.rand() < (0.35 if t in ('public', 'local') else 0.9)
+                         and not (count_query and t in ('local', 'public'))] or ['factored'],   # only FactoredInference documents the empty projection
                 oracle_kind=gen.pick(rng, ['convex', 'approx', 'pairwise']), sub_seed=int(rng.randint(2 ** 31)))
 
 
